@@ -1084,3 +1084,75 @@ Section ReaderRefines.
     destruct fs; reflexivity.
   Qed.
 End ReaderRefines.
+
+(* ================================================================== by-name lookups, round trip *)
+Lemma fdesc_eqb_eq a b : fdesc_eqb a b = true -> a = b.
+Proof.
+  destruct a as [n1 m1 j1 l1 t1], b as [n2 m2 j2 l2 t2]. unfold fdesc_eqb. cbn [fd_num fd_name fd_json fd_label fd_type].
+  intros H. repeat (apply andb_true_iff in H as [H ?H]).
+  apply Z.eqb_eq in H. apply bytes_eqb_eq in H3. apply bytes_eqb_eq in H2. subst.
+  assert (l1 = l2).
+  { destruct l1 as [|p|k], l2 as [|q|k']; cbn in H1; try discriminate; try reflexivity.
+    - apply eqb_prop in H1. subst. reflexivity.
+    - apply Z.eqb_eq in H1. subst. reflexivity. }
+  assert (t1 = t2).
+  { destruct t1 as [k|m], t2 as [k'|m']; cbn in H0; try discriminate.
+    - apply Z.eqb_eq in H0. subst. reflexivity.
+    - apply bytes_eqb_eq in H0. subst. reflexivity. }
+  subst. reflexivity.
+Qed.
+
+Lemma names_okb_sound S : names_okb S = true ->
+  forall name md n fd, find_msg S name = Some md -> find_field md n = Some fd -> find_field_name md (fd_name fd) = Some fd.
+Proof.
+  intros H name md n fd Hm Hf. unfold find_msg in Hm. apply find_some in Hm as [Hin _].
+  unfold find_field in Hf. apply find_some in Hf as [Hfin _].
+  unfold names_okb in H. rewrite forallb_forall in H. specialize (H md Hin). rewrite forallb_forall in H.
+  specialize (H fd Hfin). destruct (find_field_name md (fd_name fd)) as [fd'|]; [|discriminate].
+  apply fdesc_eqb_eq in H. subst. reflexivity.
+Qed.
+
+(* without empty sub-messages the reader's rendering is the writer's *)
+Lemma gval_of_no_empty S bn v : forall t, no_empty v = true -> gval_of S bn true t v = gval_of S bn false t v.
+Proof.
+  induction v as [k x|k s|fs IH|p vs IH|kvs IH] using pval_ind'; intros t Hne.
+  - reflexivity.
+  - reflexivity.
+  - cbn [no_empty] in Hne. apply andb_true_iff in Hne as [Hnn Hall].
+    cbn [gval_of]. destruct fs as [|nv fs]; [discriminate|]. cbn [is_nil andb].
+    rewrite forallb_forall in Hall. rewrite Forall_forall in IH.
+    destruct bn; f_equal; apply map_ext_in; intros a Ha; rewrite (IH a Ha _ (Hall a Ha)); reflexivity.
+  - cbn [no_empty] in Hne. cbn [gval_of]. f_equal. rewrite forallb_forall in Hne. rewrite Forall_forall in IH.
+    apply map_ext_in. intros a Ha. apply (IH a Ha _ (Hne a Ha)).
+  - cbn [no_empty] in Hne. cbn [gval_of]. f_equal. rewrite forallb_forall in Hne. rewrite Forall_forall in IH.
+    apply map_ext_in. intros a Ha. rewrite (IH a Ha _ (Hne a Ha)). reflexivity.
+Qed.
+
+Lemma gtop_no_empty S bn name fs : forallb (fun nv => no_empty (snd nv)) fs = true ->
+  gtop S bn true name fs = gtop S bn false name fs.
+Proof.
+  intros H. unfold gtop. destruct fs as [|nv fs]; [reflexivity|]. cbn [is_nil].
+  apply gval_of_no_empty. cbn [no_empty is_nil negb andb]. exact H.
+Qed.
+
+(* (T3) the sentence of the property: what WriteAnyWithDesc wrote for a conforming Go value (any field / entry order, every
+   kind, packed and unpacked lists, maps, nested messages, by number or by name), ReadAnyWithDesc reads back as the same Go
+   value - Go maps as association lists in the order written, an empty sub-message as nil (identical when there is none) -
+   and the proved reference decoder sees the same message. *)
+Theorem read_write_any S cast dis_w dis_r byname junk name fs fuel :
+  (9 <= length junk)%nat -> (byname = true -> names_okb S = true) ->
+  wf_msg S name fs = true -> strs_ok (VMsg fs) = true -> sizes_ok (VMsg fs) = true -> (depth (VMsg fs) < fuel)%nat ->
+  exists bytes,
+    write_any_desc S cast dis_w byname junk true fuel 0 LSingular (TMsg name) false (gtop S byname false name fs) = (bytes, 0) /\
+    read_any_desc S dis_r byname fuel LSingular (TMsg name) false bytes = Some (gtop S byname true name fs, []) /\
+    decode_top S name bytes = Some fs /\
+    (forallb (fun nv => no_empty (snd nv)) fs = true -> gtop S byname true name fs = gtop S byname false name fs).
+Proof.
+  intros Hj Hnm Hw Hs Hz Hd. exists (encode_msg fs).
+  assert (Hnames : byname = true -> forall name md n fd, find_msg S name = Some md -> find_field md n = Some fd ->
+                   find_field_name md (fd_name fd) = Some fd).
+  { intros E. apply names_okb_sound. apply Hnm. exact E. }
+  destruct (write_any_refines_encode S cast dis_w byname junk Hj Hnames name fs fuel Hw Hs Hz Hd) as [H1 H2].
+  split; [exact H1|]. split; [apply read_any_refines_decode; assumption|]. split; [exact H2|].
+  apply gtop_no_empty.
+Qed.
